@@ -91,6 +91,7 @@ fn main() {
         "select_listen" => select::listen(&args),
         "select_rws" => select::rws(&args),
         "supervision" => supervision::run(&args),
+        "link_race" => supervision::link_race(&args),
         "typegate" => mailbox::typegate(&args),
         "auth_fsm" => auth::fsm(&args),
         "auth_session" => auth::session(&args),
